@@ -53,6 +53,7 @@ RULE = (
     "> 0.5 px by the augmentation; for non-moving augmentations: the pixels changed); distinct = distinct case dict"
 )
 ASSUMPTIONS = [
+    "Dataset classes are also run on label sets over two videos of different frame sizes (24x36 and 48x72, both orders, size-matched to the larger one as the trainer does): every frame's keypoints must be registered with its own image",
     "blobs are Gaussians with sigma >= 1.5 output px after all scaling (source sigma 2 / 3 / 4.5 chosen from the nominal total scale), "
     "keypoints >= max(4, 1.5 sigma) px inside the source frame, pairwise >= 4.5 sigma apart, at non-dyadic sub-pixel offsets",
     "a keypoint is judged only if it lies >= 3 px inside the output and >= 3 px away from any pixel without source content (exact zeros: "
@@ -347,9 +348,21 @@ def exec_nomove(c):
     return _result(errors, reg, checked, worst, changed, core.digest([aug, c.get("sel"), c.get("seed"), int(changed), round(float(oi.sum()), 2)]), {"pixels_changed": changed})
 
 
-def ds_sigma(c):
-    H, W = c["hw"]
-    return D.sigma_for(total_scale(H, W, c["maxhw"], c["scale"])[1])
+def case_maxhw(c):
+    """Size-matcher target of a case: relative tag, or (multi-video label sets) the absolute common target."""
+    if c.get("mv"):
+        return tuple(c["mv"]["target"])
+    return maxhw(c["maxhw"], *c["hw"])
+
+
+def case_total_scale(c, hw=None):
+    H, W = hw or c["hw"]
+    r, _, _ = R.fit_scale(H, W, *case_maxhw(c))
+    return r, r * c["scale"]
+
+
+def ds_sigma(c, hw=None):
+    return D.sigma_for(case_total_scale(c, hw)[1])
 
 
 def ds_file_key(c):
@@ -380,14 +393,19 @@ def get_dataset(c, env):
         H, W = c["hw"]
         sigma = ds_sigma(c)
         kind = D.scene_kind(c["cls"], c.get("anchor", 0))
-        path = D.labels_path(env, H, W, sigma, kind, c["src_rgb"])
+        if c.get("mv"):
+            sizes = c["mv"]["sizes"]
+            sigmas = [ds_sigma(c, hw) for hw in sizes]
+            path = D.labels_path_mv(env, sizes, sigmas, kind, c["src_rgb"])
+        else:
+            path = D.labels_path(env, H, W, sigma, kind, c["src_rgb"])
         env["ds"] = None
         env["ds_key"] = None
         env["ds"] = D.build_dataset(
-            c["cls"], path, c["is_rgb"], maxhw(c["maxhw"], H, W), c["scale"], c["stride"], crop=c.get("crop"), anchor=c.get("anchor", 0), aug=ds_aug_config(c)
+            c["cls"], path, c["is_rgb"], case_maxhw(c), c["scale"], c["stride"], crop=c.get("crop"), anchor=c.get("anchor", 0), aug=ds_aug_config(c)
         )
         env["ds_key"] = key
-        env["ds_frames"] = D.scene(H, W, sigma, kind)
+        env["ds_frames"] = D.mv_frames(sizes, sigmas, kind) if c.get("mv") else D.scene(H, W, sigma, kind)
         env["ds_builds"] = env.get("ds_builds", 0) + 1
     return env["ds"], env["ds_frames"]
 
@@ -396,9 +414,9 @@ def exec_ds(c, env):
     import torch
 
     H, W = c["hw"]
-    mh, mw = maxhw(c["maxhw"], H, W)
+    mh, mw = case_maxhw(c)
     s, m = c["scale"], c["stride"]
-    r, tot = total_scale(H, W, c["maxhw"], s)
+    r, tot = case_total_scale(c)
     sigma = ds_sigma(c)
     ds, frames = get_dataset(c, env)
     index = D.sample_index(c["cls"], frames)
@@ -416,7 +434,10 @@ def exec_ds(c, env):
     else:
         sample = ds[c["idx"]]
         sig_out = sigma * tot
-    if int(sample["frame_idx"]) != f:
+    if c.get("mv"):  # every labelled frame is frame 0 of its own video
+        if (int(sample["video_idx"]), int(sample["frame_idx"])) != (f, 0):
+            errors.append(f"sample {c['idx']} comes from video {int(sample['video_idx'])} frame {int(sample['frame_idx'])}, expected video {f} frame 0")
+    elif int(sample["frame_idx"]) != f:
         errors.append(f"sample {c['idx']} comes from frame {int(sample['frame_idx'])}, expected frame {f}")
     img, kps, src, both = D.observe(c["cls"], sample, frames, f, i, c.get("anchor", 0))
     C = 3 if c["is_rgb"] else 1
@@ -577,7 +598,7 @@ def _k4_prediction(case):
     """-> f(x, y) = predicted (keypoint - content) vector of the resize stages for a source coordinate, or None if the
     case has no resize stage.  Sizes follow the documented behaviour: round() in apply_sizematcher, int() in resize_image."""
     H, W = case["hw"]
-    mh, mw = maxhw(case["maxhw"], H, W)
+    mh, mw = case_maxhw(case) if case.get("mv") else maxhw(case["maxhw"], H, W)
     s = float(case["scale"])
     r, eh, ew = R.fit_scale(H, W, mh, mw)
     if r == 1.0 and s == 1.0:
@@ -747,6 +768,24 @@ def plan(tier):
                                 base["crop"] = crop
                             for idx in range(n_samples(cls, hw, tag, s)):
                                 ds.append(dict(base, idx=idx))
+    # label sets over two videos of DIFFERENT frame sizes, size-matched to the common (larger) size as the trainer does
+    # (max_hw = the largest video): the small frame is up-scaled, the large one is not; both orders of the two videos
+    small, large = (24, 36), (48, 72)
+    for order in ("small-first", "large-first"):
+        sizes = [list(small), list(large)] if order == "small-first" else [list(large), list(small)]
+        for cls, crop, anchor in [("bottomup", None, 0), ("single", None, 0), ("centroid", None, 0), ("centered", [16, 16], 0)]:
+            for s in (1.0, 0.5):
+                for m in (1, 16) if q else STRIDES:
+                    mv = {"order": order, "sizes": sizes, "target": list(large)}
+                    base = {"kind": "ds", "cls": cls, "src_rgb": False, "is_rgb": False, "maxhw": "abs", "scale": s, "stride": m, "aug": None, "mv": mv}
+                    if cls in ("centroid", "centered"):
+                        base["anchor"] = anchor
+                    if crop is not None:
+                        base["crop"] = crop
+                    kind = D.scene_kind(cls, 0)
+                    frs = D.mv_frames(sizes, [ds_sigma(base, hw) for hw in sizes], kind)
+                    for idx, (f, _i) in enumerate(D.sample_index(cls, frs)):
+                        ds.append(dict(base, hw=sizes[f], idx=idx))
     # augmentation corners end to end.  Only preprocessing without a K4 offset beyond 0.25 px per axis is combined with
     # the affine corners (no resize stage at all, or an exact halving of an even-sized frame): the affine scale would
     # otherwise amplify the K4 offset and kornia's own ~0.3 px resampling error would blur its predictive signature.
